@@ -50,15 +50,30 @@ Theorem C12_stream_end_reported : forall pl ds tl1 p x ns,
 Proof. exact stream_end_reported. Qed.
 Print Assumptions C12_stream_end_reported.
 
-(* Stays reported.  (1) After Close: Read, Write and a second Close report "closed", deliver
-   and send nothing.  (2) An error returned by Read is returned by every later Read (or
-   "closed"), which delivers nothing — except the no_renegotiation error, finding K11 below.
-   (3) A Write that failed is followed only by failing Writes that send nothing.
-   (4) A failed Handshake keeps returning its error (a cancelled one: the error of the closed
-   transport), and Read / Write return it too.  (5) Across the halves: a Read that failed with
-   anything but an error received from the peer (EOF, unexpected EOF, fatal alert) stops Write;
-   a Write that failed because the handshake failed stops Read — the remaining combinations are
-   finding K10 below.  (6) Write after CloseWrite fails. *)
+(* Stays reported.  `fail e []` is the outcome "error e, nothing accepted, nothing delivered,
+   nothing sent".  (1) After Close: Read, Write and a second Close report "closed".
+   (2) An error returned by Read is returned by every later Read (or "closed"), which delivers
+   and sends nothing.  (3) A Write that failed is followed only by failing Writes that send
+   nothing.  (4) A failed Handshake keeps returning its error (a cancelled one: the error of the
+   closed transport), and Read / Write return it too.  (5) Across the halves (the connection-wide
+   latch c.fatal): after Read returned any error but end-of-stream, every Write fails and sends
+   nothing; after Write returned any error but "shutdown", every Read fails and delivers nothing,
+   buffered plaintext included.  (6) Write after CloseWrite fails.
+   What the premises leave out, each on purpose:
+   - `e <> XBlock`: XBlock is not a result (the call is still waiting; a timeout is not latched:
+     noteFatal skips net.Error.Timeout, readRecord does not latch temporary errors);
+   - `e <> XEof` in (5): end-of-stream (close_notify, or a clean end of the transport) is not an
+     error of the connection; this endpoint may go on writing (half-close);
+   - `e <> XShutdown` in (5): Write fails with "shutdown" because CloseWrite sent this endpoint's
+     close_notify; reading goes on until the peer closes;
+   - `m <> 0`: Read with an empty buffer returns (0, nil) once the handshake has completed,
+     whatever happened since (it returns before looking at the connection); after Close or a
+     failed handshake it fails as well (clauses 1 and 4 have no such premise);
+   - Handshake() on an established connection returns the latched nil also after a fatal error
+     or Close (every caller observes the same handshake result: C13); clause 4 covers the failed
+     handshake.
+   The Read that first reports an error may deliver bytes with it (the look-ahead of Conn.Read
+   returns (n, err)); every later call delivers nothing: the clauses speak about `oj`, j > i. *)
 Theorem C12_sticky : forall pl h i j ci cj oi oj,
   i < j ->
   nth_error h i = Some ci -> nth_error (run (init pl) h) i = Some oi ->
@@ -68,11 +83,11 @@ Theorem C12_sticky : forall pl h i j ci cj oi oj,
      match cj with CRead _ | CWrite _ | CClose => oj = fail XClosed [] | _ => True end) /\
   (* 2 *)
   (forall n m e, ci = CRead n -> cj = CRead m -> m <> 0 ->
-     o_err oi = Some e -> e <> XBlock -> e <> XLocal 100 ->
-     (o_err oj = Some e \/ o_err oj = Some XClosed) /\ o_data oj = [] /\ o_sent oj = []) /\
+     o_err oi = Some e -> e <> XBlock ->
+     oj = fail e [] \/ oj = fail XClosed []) /\
   (* 3 *)
   (forall bs bs' e, ci = CWrite bs -> cj = CWrite bs' -> o_err oi = Some e -> e <> XBlock ->
-     o_err oj <> None /\ o_n oj = 0 /\ o_sent oj = []) /\
+     exists e', oj = fail e' []) /\
   (* 4 *)
   (forall k e, ci = CHandshake k -> o_err oi = Some e -> e <> XBlock ->
      exists e', (e' = e \/ (e = XCtx /\ e' = XClosed /\ k <> None)) /\
@@ -83,14 +98,13 @@ Theorem C12_sticky : forall pl h i j ci cj oi oj,
        | _ => True
        end) /\
   (* 5 *)
-  (forall n bs e, ci = CRead n -> cj = CWrite bs -> o_err oi = Some e -> ~ recv_err e -> e <> XBlock ->
-     o_err oj <> None /\ o_n oj = 0 /\ o_sent oj = []) /\
-  (forall bs m e, ci = CWrite bs -> cj = CRead m -> o_err oi = Some e ->
-     e <> XBlock -> e <> XShutdown -> e <> XClosed -> (forall c, e <> XLocal c) ->
-     oj = fail e [] \/ oj = fail XClosed []) /\
+  (forall n bs e, ci = CRead n -> cj = CWrite bs -> o_err oi = Some e -> e <> XBlock -> e <> XEof ->
+     exists e', oj = fail e' []) /\
+  (forall bs m e, ci = CWrite bs -> cj = CRead m -> m <> 0 -> o_err oi = Some e -> e <> XBlock -> e <> XShutdown ->
+     exists e', oj = fail e' []) /\
   (* 6 *)
   (forall bs, ci = CCloseWrite -> cj = CWrite bs -> o_err oi <> Some XEarlyCloseWrite ->
-     o_err oj <> None /\ o_n oj = 0 /\ o_sent oj = []).
+     exists e', oj = fail e' []).
 Proof. exact sticky. Qed.
 Print Assumptions C12_sticky.
 
@@ -125,38 +139,53 @@ Theorem C12_cancel : forall pl h1 k h2,
 Proof. exact cancel_reported. Qed.
 Print Assumptions C12_cancel.
 
-(* Findings, as refutations of the unrestricted "stays reported" on the faithful model. *)
-(* K10: errors are latched per half.  A fatal alert from the peer, or a truncated transport,
-   reported by Read does not stop Write ... *)
-Theorem C12_sticky_write_after_received_error_refuted :
-  (let h := [CHandshake None; CArrive [EApp [1%N]; EAlert 2 40]; CRead 10; CWrite [7%N]] in
+(* The histories of the former findings K10 and K11 (fixed in 46481b8), as the fixed code runs
+   them.  K10: a fatal alert received, or a transport truncated inside a record, stops Write as
+   well; a failed transport write stops Read, and the bytes that had arrived stay undelivered. *)
+Theorem C12_sticky_across_halves :
+  (let h := [CHandshake None; CArrive [EApp [1%N]; EAlert 2 40]; CRead 10; CWrite [7%N]; CRead 10] in
    nth_error (run (init plan0) h) 2 = Some (mkO (Some (XRemote 40)) 0 [1%N] []) /\
-   nth_error (run (init plan0) h) 3 = Some (mkO None 1 [] [SApp [7%N]])) /\
+   nth_error (run (init plan0) h) 3 = Some (fail (XRemote 40) []) /\
+   nth_error (run (init plan0) h) 4 = Some (fail (XRemote 40) [])) /\
   (let h := [CHandshake None; CArrive [EApp [1%N]]; CEnd (Some (23%N, true)); CRead 10; CRead 10; CWrite [7%N]] in
-   nth_error (run (init plan0) h) 4 = Some (mkO (Some XUnexpectedEof) 0 [] []) /\
-   nth_error (run (init plan0) h) 5 = Some (mkO None 1 [] [SApp [7%N]])).
-Proof. split; [exact write_after_received_fatal_alert | exact write_after_truncation]. Qed.
-Print Assumptions C12_sticky_write_after_received_error_refuted.
-
-(* ... and a Write that failed on the transport does not stop Read *)
-Theorem C12_sticky_read_after_failed_write_refuted :
-  let h := [CHandshake None; CArrive [EApp [1%N; 2%N]]; CGone; CWrite [7%N]; CRead 10] in
-  nth_error (run (init plan0) h) 3 = Some (mkO (Some XClosed) 0 [] []) /\
-  nth_error (run (init plan0) h) 4 = Some (mkO None 0 [1%N; 2%N] []).
-Proof. exact read_after_failed_write. Qed.
-Print Assumptions C12_sticky_read_after_failed_write_refuted.
+   nth_error (run (init plan0) h) 3 = Some (mkO None 0 [1%N] []) /\
+   nth_error (run (init plan0) h) 4 = Some (fail XUnexpectedEof []) /\
+   nth_error (run (init plan0) h) 5 = Some (fail XUnexpectedEof [])) /\
+  (let h := [CHandshake None; CArrive [EApp [1%N; 2%N]]; CGone; CWrite [7%N]; CRead 10] in
+   nth_error (run (init plan0) h) 3 = Some (fail XClosed []) /\
+   nth_error (run (init plan0) h) 4 = Some (fail XClosed [])).
+Proof. split; [exact write_after_received_fatal_alert | split; [exact write_after_truncation | exact read_after_failed_write]]. Qed.
+Print Assumptions C12_sticky_across_halves.
 
 (* K11: application data, a warning alert, a handshake record and more application data in one
-   burst: the second Read returns no_renegotiation, the third delivers the later data *)
-Theorem C12_sticky_read_after_no_renegotiation_refuted :
+   burst: the first Read returns its byte together with the no_renegotiation error (the look-ahead
+   rejects the handshake record at once); the later data is never delivered, nothing is sent *)
+Theorem C12_sticky_no_renegotiation :
   let h := [CHandshake None; CArrive [EApp [1%N]; EAlert 1 90; EHs; EApp [2%N; 3%N]]; CEnd None;
-            CRead 10; CRead 10; CRead 10; CRead 10] in
-  nth_error (run (init plan0) h) 3 = Some (mkO None 0 [1%N] []) /\
-  nth_error (run (init plan0) h) 4 = Some (mkO (Some (XLocal 100)) 0 [] [SAlert 1 100]) /\
-  nth_error (run (init plan0) h) 5 = Some (mkO None 0 [2%N; 3%N] []) /\
-  nth_error (run (init plan0) h) 6 = Some (mkO (Some (XLocal 100)) 0 [] []).
+            CRead 10; CRead 10; CRead 10; CWrite [3%N]] in
+  nth_error (run (init plan0) h) 3 = Some (mkO (Some (XLocal 100)) 0 [1%N] [SAlert 1 100]) /\
+  nth_error (run (init plan0) h) 4 = Some (fail (XLocal 100) []) /\
+  nth_error (run (init plan0) h) 5 = Some (fail (XLocal 100) []) /\
+  nth_error (run (init plan0) h) 6 = Some (fail (XLocal 100) []).
 Proof. exact read_after_no_renegotiation. Qed.
-Print Assumptions C12_sticky_read_after_no_renegotiation_refuted.
+Print Assumptions C12_sticky_no_renegotiation.
+
+(* The premises of C12_sticky that remain are needed: end-of-stream does not stop Write,
+   "shutdown" does not stop Read, Read with an empty buffer and Handshake on an established
+   connection return nil after a fatal alert *)
+Theorem C12_sticky_premises_needed :
+  (let h := [CHandshake None; CArrive [EAlert 1 0]; CRead 10; CWrite [7%N]] in
+   nth_error (run (init plan0) h) 2 = Some (fail XEof []) /\
+   nth_error (run (init plan0) h) 3 = Some (mkO None 1 [] [SApp [7%N]])) /\
+  (let h := [CHandshake None; CArrive [EApp [1%N]]; CCloseWrite; CWrite [7%N]; CRead 10] in
+   nth_error (run (init plan0) h) 3 = Some (fail XShutdown []) /\
+   nth_error (run (init plan0) h) 4 = Some (mkO None 0 [1%N] [])) /\
+  (let h := [CHandshake None; CArrive [EAlert 2 40]; CRead 10; CRead 0; CHandshake None] in
+   nth_error (run (init plan0) h) 2 = Some (fail (XRemote 40) []) /\
+   nth_error (run (init plan0) h) 3 = Some (mkO None 0 [] []) /\
+   nth_error (run (init plan0) h) 4 = Some (mkO None 0 [] [])).
+Proof. exact not_fatal_examples. Qed.
+Print Assumptions C12_sticky_premises_needed.
 
 (* the premises are satisfiable, and one history through most clauses: a warning alert inside
    the handshake is ignored; reads of 2 bytes over records of 3, 0 and 1 bytes; end-of-stream
